@@ -123,6 +123,11 @@ def exhaustive(tier, ctx):
         s = dict(s)
         s["wseed"] = i
         yield s
+    # call shapes that the concrete call rejects: the symbolic call has to reject them as well
+    for kind in ("fn", "method"):
+        for arity in (1, 2, 3):
+            for bad in ("extra_positional", "keyword_repeats_positional", "unknown_keyword"):
+                yield {"kind": kind, "arity": arity, "nd": 0, "invalid": bad, "wseed": arity}
 
 
 def gen(rng, tier, ctx):
@@ -139,6 +144,42 @@ def witnesses():
     }
 
 
+def run_invalid(spec, ctx):
+    """one variable argument plus a call shape the function's signature rejects"""
+    from krrood.entity_query_language.entity import let
+    m = ctx["m"]
+    C = ctx["counters"]
+    target = ctx["made"][(spec["kind"], spec["arity"], 0)]
+    call = target.meth if spec["kind"] == "method" else target
+    x = let(m.P, [m.P(a=1, name="v")], name="x")
+    consts = [m.P(a=2, name=f"c{i}") for i in range(spec["arity"] + 1)]
+    pos = [x] + consts[:spec["arity"] - 1]
+    kw = {}
+    if spec["invalid"] == "extra_positional":
+        pos = pos + [consts[-1]]
+    elif spec["invalid"] == "keyword_repeats_positional":
+        kw = {"p0": consts[-1]}
+    else:
+        kw = {"no_such_parameter": consts[-1]}
+    LOG.clear()
+    C["invalid_call_shapes"] += 1
+    concrete_error = None
+    try:
+        call(*[c if c is not x else consts[0] for c in pos], **kw)
+    except TypeError as e:
+        concrete_error = e
+    LOG.clear()
+    try:
+        res = call(*pos, **kw)
+    except TypeError:
+        return {"status": "ok", "nontrivial": True, "shape": f"invalid/{spec['kind']}/{spec['arity']}/{spec['invalid']}"}
+    except Exception as e:
+        return {"status": "fail", "kind": "invalid-call-shape", "key": None,
+                "detail": f"{spec}: the symbolic call raised {type(e).__name__} where the concrete call raises TypeError"}
+    return {"status": "fail", "kind": "invalid-call-shape", "key": None,
+            "detail": f"{spec}: the concrete call raises {concrete_error!r}, the symbolic call was accepted and returned {type(res).__name__}"}
+
+
 def run(spec, ctx):
     import random
     from krrood.entity_query_language.entity import let, set_of, entity, and_, not_, for_all
@@ -146,6 +187,8 @@ def run(spec, ctx):
     from krrood.entity_query_language.symbolic import SymbolicExpression
     m = ctx["m"]
     C = ctx["counters"]
+    if spec.get("invalid"):
+        return run_invalid(spec, ctx)
     rng = random.Random(spec["wseed"])
     kind, arity, nd, args = spec["kind"], spec["arity"], spec["nd"], spec["args"]
     target = ctx["made"][(kind, arity, nd)]
